@@ -263,7 +263,7 @@ PROFILES = {
     "mixed": {"reopen": 0.6},
     "churn": {"remove": 3.5, "copy": 2.5, "move": 3.0, "rename": 2.0, "reopen": 1.0, "gc": 1.0, "listing": 1.0, "move_data": 1.5},
     "pg": {"add_data": 6.0, "pg_add": 4.0, "pg_remove_data": 2.0, "pg_delete": 1.0, "remove": 3.0, "set_values": 4.0, "flag": 2.0},
-    "refuse": {"dup_uid": 5.0, "remove_protected": 2.0, "mk_object": 3.0, "add_data": 3.0, "gc": 2.0, "listing": 2.5, "remove": 1.5},
+    "refuse": {"dup_uid": 5.0, "remove_protected": 2.0, "mk_object": 3.0, "add_data": 3.0, "gc": 2.0, "listing": 2.5, "remove": 1.5, "add_data_fail": 2.0},
 }
 
 
